@@ -83,6 +83,15 @@ func (d *Disk) Apply(ev *Event) {
 	}
 }
 
+// snapshot: a copy that later Apply calls do not affect (contents are never mutated in place).
+func (d *Disk) snapshot() *Disk {
+	c := NewDisk()
+	for n, f := range d.files {
+		c.files[n] = &fstate{durable: f.durable, pending: append([]Write{}, f.pending...)}
+	}
+	return c
+}
+
 // class of a file: tx, commit, val, aht, index
 func classOf(file string) string {
 	top := strings.Split(filepath.ToSlash(file), "/")[0]
@@ -148,6 +157,14 @@ func (d *Disk) Image(policy string) map[string][]byte {
 			if cl != policy[7:] {
 				k = len(f.pending)
 			}
+		case strings.HasPrefix(policy, "mask:"):
+			// mask:<tx><commit><val><aht><index>, 1 = as the OS saw the files of the class
+			m := policy[5:]
+			for ci, c := range classes {
+				if c == cl && ci < len(m) && m[ci] == '1' {
+					k = len(f.pending)
+				}
+			}
 		case prng != nil:
 			if len(f.pending) > 0 {
 				k = prng.Intn(len(f.pending) + 1)
@@ -206,3 +223,19 @@ func (d *Disk) pendingBytes() map[string]int {
 	}
 	return m
 }
+
+// tmpBase: temporary store directories go to a memory file system when there is one (thousands of
+// small stores are created and fsynced by the real code); "" = the default temp dir.
+func tmpBase() string {
+	if fi, err := os.Stat("/dev/shm"); err == nil && fi.IsDir() {
+		if d, err := os.MkdirTemp("/dev/shm", "c03probe"); err == nil {
+			os.RemoveAll(d)
+			return "/dev/shm"
+		}
+	}
+	return ""
+}
+
+var tmpRoot = tmpBase()
+
+func mkTemp(pat string) (string, error) { return os.MkdirTemp(tmpRoot, pat) }
